@@ -164,6 +164,8 @@ def check_arm(run, pkg, rank, linear, arm):
     val = ev.data["value"]
     pr = product_of(val)
     if pr is None:
+        if not linear and perframe_symbolic(run, it, ev, rank, arm):
+            return
         run.ob("R-SIB", fq, f"{arm}:product", None, "product form recognised", show(val)[:120], loc=loc)
         return
     A, B, (red, axis, real) = pr
@@ -598,3 +600,54 @@ def check_common(run, pkg):
         c = e.data["call"]
         ok = tri_lazy(lambda: (True if (c[2][0] == ret) else None), lambda: (True if (len(c[2]) > 1) else None), lambda: eqv(c[2][1], ("sym", "outputfile")))
         run.ob("R-SAVE", fq, "csv", ok, "the CSV is written from the returned frame", show(c)[:70], witness=None if ok else "file differs from returned values", loc=loc_of(it, e), sound=True)
+
+
+def perframe_symbolic(run, it, ev, rank, arm) -> bool:
+    """Single-origin arm written as one whole-array expression per frame (results[n] = f(condition[n], condition[0])): the
+    stored value is evaluated, for every frame n of a symbolic series of shape T=3, N=2(, d=2(, d=2)), and compared as a
+    polynomial with Re sum_i A_i(n) conj(A_i(0)) (trace of the product for tensors).  Exact for that shape."""
+    import numpy as np
+    import sympy as sp
+    from ..concrete import ev as cev, symbolic_array
+    fq = short(it.fi.qual)
+    if ev.kind != "store" or len(ev.loops) != 1 or ev.data.get("op") not in (None, "+"):
+        return False
+    L = it.loops[ev.loops[0]]
+    nvar = L.target
+    if ev.data["target"][2] != nvar:
+        return False
+    T, N, d = 3, 2, 2
+    shape = {2: (T, N), 3: (T, N, d), 4: (T, N, d, d)}[rank]
+    c = symbolic_array(shape, "c")
+    val = strip_alloc_(ev.data["value"])
+    bad = None
+    try:
+        for k in range(T):
+            got = sp.expand(sp.sympify(cev(val, {COND: c, T_: T, nvar: k, ("attr", COND, "shape"): shape})))
+            if rank == 4:
+                ref = sum(sp.Matrix(c[k, i].tolist()).multiply(sp.Matrix(c[0, i].tolist()).conjugate()).trace() for i in range(N))
+            else:
+                ref = sum(x * sp.conjugate(y) for x, y in zip(c[k].ravel(), c[0].ravel()))
+            dlt = sp.expand(got - sp.re(sp.expand(ref)))
+            if dlt != 0:
+                bad = (k, dlt)
+                break
+    except Exception:  # noqa
+        return False
+    if bad is None:
+        run.ob("R-SIB", fq, f"{arm}:per-frame", True, "value stored for frame n equals Re sum A(n) conj(A(0)) - decided exactly on a symbolic series of shape " + str(shape), show(val)[:100], loc=loc_of(it, ev))
+        return True
+    k, dlt = bad
+    import random
+    rnd = random.Random(5)
+    subs_ = {s_: sp.Rational(rnd.randint(-3, 3)) for s_ in dlt.free_symbols}
+    v = dlt.subs(subs_)
+    tries = 0
+    while v == 0 and tries < 20:
+        subs_ = {s_: sp.Rational(rnd.randint(-5, 5)) for s_ in dlt.free_symbols}
+        v = dlt.subs(subs_)
+        tries += 1
+    run.ob("R-SIB", fq, f"{arm}:per-frame", False, "value stored for frame n equals Re sum A(n) conj(A(0)) (trace of the matrix product for tensors)",
+           f"frame {k}: code - definition = {sp.sstr(dlt)[:160]}",
+           witness=f"series of shape {shape} with entries {({str(a): str(b) for a, b in list(subs_.items())[:6]})}: frame {k} differs by {v}", loc=loc_of(it, ev), sound=True)
+    return True
